@@ -239,6 +239,9 @@ def observe_case(item):
     res = {}
 
     def visit(scope):
+        rv = getattr(scope, "retvar", None)
+        if rv is not None and not isinstance(rv, str) and getattr(rv, "proto", None):
+            res["ret:" + scope.name.lower()] = ent_path(rv.proto[0])
         for v in getattr(scope, "variables", []):
             nm = v.name.lower()
             if nm.startswith(("sv", "sp")) and v.proto:
@@ -516,7 +519,7 @@ def case_order(seed):
     S = seed % 9973
     files = {}
     exp = {}
-    variant = rng.choice(["deep_use_of_reexport", "local_generic_named_like_imported_type"])
+    variant = rng.choice(["deep_use_of_reexport", "local_generic_named_like_imported_type", "prefix_typed_result"])
     if variant == "deep_use_of_reexport":
         base, re1 = f"mb{S}", f"mr{S}"
         chain = [re1] + ([f"mq{S}"] if rng.random() < 0.4 else [])
@@ -552,6 +555,21 @@ def case_order(seed):
             exp["sv9"] = f"{host}::tt"
         L += [f"end module {host}"]
         files[host + ".f90"] = "\n".join(L) + "\n"
+    elif variant == "prefix_typed_result":
+        # the type named in a function prefix is looked up in the function's own scope (its USE statements and declarations) first
+        m2, host = f"mp{S}", rng.choice([f"a{S}_host", f"z{S}_host"])
+        files[m2 + ".f90"] = f"module {m2}\nimplicit none\ntype :: tt\ninteger :: a\nend type tt\nend module {m2}\n"
+        L = [f"module {host}", "implicit none", "type :: tt", "integer :: own", "end type tt", "contains",
+             "type(tt) function uses_other()", f"use {m2}", "uses_other%a = 1", "end function uses_other",
+             "type(tt) function uses_host()", "uses_host%own = 1", "end function uses_host",
+             "function body_typed() result(r)", f"use {m2}, only: tt", "type(tt) :: r", "r%a = 2", "end function body_typed",
+             "type(tt) function with_result() result(q)", f"use {m2}", "q%a = 3", "end function with_result",
+             f"end module {host}"]
+        files[host + ".f90"] = "\n".join(L) + "\n"
+        exp["ret:uses_other"] = f"{m2}::tt"
+        exp["ret:uses_host"] = f"{host}::tt"
+        exp["ret:body_typed"] = f"{m2}::tt"
+        exp["ret:with_result"] = f"{m2}::tt"
     else:
         m0 = f"mv{S}"
         ext = rng.choice([f"b{S}_ext", f"y{S}_ext"])
